@@ -398,7 +398,17 @@ pub fn args_for(rng: &mut Rng, kind: usize, t: Tup, other: Tup) -> Vec<i64> {
     }
     "LF.next" => vec![t.y, rng.range(0, 12), rng.range(-15, 15)],
     "SF.idx" => vec![t.y, rng.range(0, 10)],
-    "SF.ymd" | "HOL.ymd" => vec![if KINDS[kind].name == "HOL.ymd" && rng.chance(2, 3) { rng.range(2001, 2026) } else { t.y }, am, t.d.min(28).max(1)],
+    "HOL.ymd" => {
+      // mostly dates that are in the holiday table (so that the answer is not trivially None)
+      let y = if rng.chance(2, 3) { rng.range(2001, 2026) } else { t.y };
+      if rng.chance(2, 3) {
+        let e = *rng.pick(&[(1i64, 1i64), (5, 1), (10, 1), (10, 2), (10, 3), (5, 2), (1, 2), (4, 5), (10, 5), (10, 7), (5, 3)]);
+        vec![y, e.0, e.1]
+      } else {
+        vec![y, am, t.d.min(28).max(1)]
+      }
+    }
+    "SF.ymd" => vec![t.y, am, t.d.min(28).max(1)],
     "HOL.next" => vec![rng.range(2002, 2025), *rng.pick(&[1i64, 5, 10]), *rng.pick(&[1i64, 2, 3]), rng.range(-5, 5)],
     "EC.times" => {
       let a = t.y - rng.range(0, 70);
@@ -812,4 +822,53 @@ pub fn gen_run(rng: &mut Rng, sw: &Swarm, pool: &[Query], leap: &Leap, reset: bo
   // allocation yield points: off for sequential histories, else every n-th library allocation
   let alloc_period = if sw.threads == 1 || matches!(sw.policy, Policy::Seq) { 0 } else { *rng.pick(&[0u32, 0, 997, 211, 53, 17]) };
   RunScript { threads, policy: sw.policy.clone(), sched_seed, hash_seed, reset, fault_free: !any_fault, alloc_period }
+}
+
+/// Stress run (Policy::Os): 2-4 threads hammer the same query kind with arguments that would
+/// share a slot in a direct-mapped / truncated / modular structure (year +- 8..1024, +-60; month
+/// +-12), each in a tight loop. No baton: the threads really run in parallel, so this reaches
+/// races between instructions that neither lock nor allocate. Not deterministic; whatever it
+/// finds is confirmed by repetition.
+pub fn gen_stress_run(rng: &mut Rng, leap: &Leap, reset: bool) -> RunScript {
+  let era = *rng.pick(&[1u64, 2, 2, 2, 4, 4]);
+  let base = gen_tuple(rng, era, leap, false);
+  let other = gen_tuple(rng, era, leap, false);
+  // a cheap or medium query kind with at least one argument
+  let mut k = K_LM_FROM_YM;
+  for _ in 0..64 {
+    let c = rng.below(KINDS.len() as u64) as usize;
+    if KINDS[c].cost <= 1 && KINDS[c].arity >= 1 && KINDS[c].name != "CYCLE" && KINDS[c].name != "STAR" && KINDS[c].name != "JD" {
+      k = c;
+      break;
+    }
+  }
+  let q0 = Query::new(k, args_for(rng, k, base, other));
+  let nthreads = *rng.pick(&[2usize, 2, 3, 4]);
+  let reps: u64 = match KINDS[k].cost {
+    0 => rng.range(300, 1500) as u64,
+    _ => rng.range(60, 300) as u64,
+  };
+  let mut threads: Vec<Vec<Op>> = Vec::new();
+  for t in 0..nthreads {
+    let mut a = q0.args.clone();
+    if t > 0 {
+      let delta = *rng.pick(&[8i64, -8, 16, -16, 32, 64, -64, 128, 256, -256, 512, 1024, 60, -60, 4, 2]);
+      if rng.chance(4, 5) || a.len() < 2 {
+        a[0] += delta;
+        if a[0] < 1 || a[0] > 9990 {
+          a[0] = q0.args[0] - delta;
+        }
+      } else {
+        a[1] = ((a[1] - 1 + delta.abs() % 12) % 12) + 1;
+      }
+    }
+    let q = Query::new(k, a);
+    let mut ops = vec![Op::QRep { q: q.clone(), times: reps }];
+    if rng.chance(1, 2) {
+      // and once more after the others have been at it
+      ops.push(Op::QRep { q, times: reps / 2 + 1 });
+    }
+    threads.push(ops);
+  }
+  RunScript { threads, policy: Policy::Os, sched_seed: 0, hash_seed: rng.next_u64() | 1, reset, fault_free: true, alloc_period: 0 }
 }
